@@ -114,12 +114,13 @@ Definition factor_f1 (fd : ffactor) : bool :=
   end.
 
 (** a factor outside [act_design] (implied: no variables, its row is computed
-    after solving): any window shape that never reads before the first trial *)
+    after solving): any window shape; in the first trials a window that is not
+    yet full reads [None] cells *)
 Definition factor_impl_f1 (fd : ffactor) : bool :=
   (0 <? length (ff_levels fd)) &&
   match ff_window fd with
   | None => false
-  | Some w => (0 <? win_width w) && (0 <? win_stride w) && (win_width w - 1 <=? win_start w)
+  | Some w => (0 <? win_width w) && (0 <? win_stride w)
   end.
 
 Definition col_ok (dep : nat) (col : list (option nat)) : bool :=
@@ -173,6 +174,19 @@ Fixpoint all_cols (n width : nat) : list (list (option nat)) :=
 Definition all_args (w : fwindow) : list (list (list (option nat))) :=
   product (map (fun d => all_cols (nlevels fb d) (win_width w)) (win_deps w)).
 
+(** ... of a window whose first [k] trials lie before the first trial ([None] cells) *)
+Fixpoint all_cols_from (n width k : nat) {struct k} : list (list (option nat)) :=
+  match k with
+  | O => all_cols n width
+  | S k' => match width with
+            | O => [[]]
+            | S w' => map (cons None) (all_cols_from n w' k')
+            end
+  end.
+
+Definition all_args_from (w : fwindow) (k : nat) : list (list (list (option nat))) :=
+  product (map (fun d => all_cols_from (nlevels fb d) (win_width w) k) (win_deps w)).
+
 (** no argument tuple is accepted by two levels *)
 Definition tables_unambiguous (f : nat) (fd : ffactor) : bool :=
   negb (isact f) ||
@@ -194,9 +208,11 @@ Definition tables_total (fd : ffactor) : bool :=
   match ff_window fd with
   | None => true
   | Some w =>
-    forallb (fun args =>
-               length (filter (fun l => accepts (dwin fd w) l args) (seq 0 (length (ff_levels fd)))) =? 1)
-            (all_args w)
+    forallb (fun k =>
+      forallb (fun args =>
+                 length (filter (fun l => accepts (dwin fd w) l args) (seq 0 (length (ff_levels fd)))) =? 1)
+              (all_args_from w k))
+      (seq 0 (S (win_width w - 1 - win_start w)))
   end.
 
 (** an implied factor (not in [act_design]) is a derived factor with a total table *)
@@ -341,8 +357,24 @@ Definition exclude_backed : bool :=
                                       | FExclude f l => (f =? fst p) && (l =? snd p)
                                       | _ => false
                                       end) (fl_constraints fb)) (fl_exclude fb).
+(** every combination of basic levels listed for an excluded derived level fixes
+    all the factors that a WithinTrial factor of act_design reads to levels its
+    excluded level accepts *)
+Definition excluded_derived_of (e : list (nat * nat)) (p : nat * nat) : bool :=
+  match factor_at fb (fst p) with
+  | Some fd =>
+    match ff_window fd with
+    | Some w =>
+      isact (fst p) && negb (ff_complex fd) &&
+      forallb (fun d => match lookup_level e d with Some _ => true | None => false end) (win_deps w) &&
+      level_accepts fd (snd p) (map (fun d => match lookup_level e d with Some x => x | None => 0 end) (win_deps w))
+    | None => false
+    end
+  | None => false
+  end.
+
 Definition no_excluded_derived : bool :=
-  match fl_excluded_derived fb with [] => true | _ => false end.
+  forallb (fun e => existsb (excluded_derived_of e) (fl_exclude fb)) (fl_excluded_derived fb).
 
 (** sustain counts (Nest / Repeat): positive; 1 for the factors with a complex
     window and for the implied factors; a WithinTrial factor of act_design is
